@@ -22,7 +22,7 @@ func init() { register("sched", "schedules of concurrent refresh / read / logout
 
 type procSpec struct {
 	pid  string
-	kind string // refresh | proxy | info | logoutlocal | logout | frontchannel
+	kind string // refresh | proxy | info | logoutlocal | logout | frontchannel | relogin (callback of a NEW login landing on the same store key)
 }
 
 type schedCase struct {
@@ -101,6 +101,7 @@ func runSchedCase(c *ctx, tc schedCase) {
 	} else {
 		sc = newMemoryScheduler(s)
 	}
+	var newBrowsers []*browser
 	for _, p := range tc.procs {
 		var rp *replica
 		if tc.store == "memory" {
@@ -109,7 +110,7 @@ func runSchedCase(c *ctx, tc schedCase) {
 			rp = s.replica(p.pid)
 		}
 		pb := newBrowser()
-		if jc := b.get(cookie.Session); jc != nil {
+		if jc := b.get(cookie.Session); jc != nil && p.kind != "relogin" {
 			pb.jar = append(pb.jar, *jc)
 		}
 		method, target := "GET", ""
@@ -127,6 +128,23 @@ func runSchedCase(c *ctx, tc schedCase) {
 			target = base + "/oauth2/logout"
 		case "frontchannel":
 			target = base + "/oauth2/logout/frontchannel?sid=" + url.QueryEscape(sid) + "&iss=" + url.QueryEscape(s.idp.issuer)
+		case "relogin":
+			// another browser of the same user logs in again: the provider keeps its own session, so the new wonderwall session gets the SAME sid
+			// and therefore the same store key. Only the callback (code redemption + session creation) runs under the schedule.
+			s.idp.mu.Lock()
+			s.idp.fixedSid = sid
+			s.idp.mu.Unlock()
+			r1 := pb.do(login, "GET", base+"/oauth2/login", nil)
+			lu, err := url.Parse(r1.Location)
+			if r1.Status != 302 || err != nil {
+				panic(fmt.Sprintf("relogin: login status %d", r1.Status))
+			}
+			code, req, err := s.idp.authorize(lu)
+			if err != nil {
+				panic(err)
+			}
+			target = base + "/oauth2/callback?" + url.Values{"code": {code}, "state": {req.State}}.Encode()
+			newBrowsers = append(newBrowsers, pb)
 		}
 		sc.spawn(p.pid, rp, pb, method, target, hdr)
 	}
@@ -210,6 +228,17 @@ func runSchedCase(c *ctx, tc schedCase) {
 		}
 	}
 	si := fb.do(login, "GET", base+"/oauth2/session", nil)
+	// the NEW login's cookie (if any): is it authenticated?
+	newAuth := false
+	for _, nb := range newBrowsers {
+		n3 := s.upCount()
+		nb.do(login, "GET", base+"/after-new", http.Header{"Sec-Fetch-Mode": {"navigate"}, "Sec-Fetch-Dest": {"document"}})
+		for _, u := range s.upSince(n3) {
+			if u.Header.Get("Authorization") != "" {
+				newAuth = true
+			}
+		}
+	}
 	dbg("followup")
 	var procs []string
 	for _, p := range tc.procs {
@@ -218,7 +247,7 @@ func runSchedCase(c *ctx, tc schedCase) {
 	c.count("case:" + tc.store)
 	c.emit("sched", "store", tc.store, "procs", procs, "schedule", tc.schedule, "crash", tc.crash, "trace", sc.trace, "statuses", statuses,
 		"exists", exists, "ttl", ttl, "at", hx(atName), "rt", hx(rtNameV), "presented", presented, "maxinflight", maxInflight, "pairs", pairs, "uptokens", upTokens,
-		"lockafter", lockAfter, "followauth", followAuth, "followstatus", fr.Status, "infostatus", si.Status, "maxlife", time.Hour)
+		"lockafter", lockAfter, "followauth", followAuth, "newauth", newAuth, "followstatus", fr.Status, "infostatus", si.Status, "maxlife", time.Hour)
 }
 
 func atNameOf(s *sut, tok string) string {
@@ -266,8 +295,33 @@ func runSched(c *ctx) {
 			}
 		}
 	}
+	// a new login lands on the same store key (the provider re-uses the sid) while a refresh of the old session is in flight and a logout completes:
+	// A runs i steps, the logout B completes, the new login C completes (or waits for the lock), then everything drains
+	for _, lk := range []string{"logoutlocal", "logout", "frontchannel"} {
+		for i := 0; i <= 7; i++ {
+			if !c.thorough() && lk != "logoutlocal" && i%2 == 1 && i != 5 {
+				continue
+			}
+			for _, ak := range []string{"refresh", "proxy"} {
+				if ak == "proxy" && !c.thorough() && i != 5 && i != 4 {
+					continue
+				}
+				ps := []procSpec{{"A", ak}, {"B", lk}, {"C", "relogin"}}
+				add("redis", ps, append(append(rep("A", i), rep("B", 3)...), rep("C", 5)...), -1)
+				if c.thorough() || i == 5 {
+					add("redis", ps, append(append(rep("A", i), rep("C", 3)...), append(rep("B", 3), rep("C", 3)...)...), -1)
+				}
+			}
+		}
+	}
+	for i := 0; i <= 7; i++ { // without a logout: the new login simply replaces the old session
+		for j := 1; j <= 5; j += 2 {
+			add("redis", []procSpec{{"A", "refresh"}, {"B", "relogin"}}, append(rep("A", i), rep("B", j)...), -1)
+		}
+	}
 	// three processes, random schedules
 	triples := [][]procSpec{
+		{{"A", "refresh"}, {"B", "logoutlocal"}, {"C", "relogin"}}, {{"A", "proxy"}, {"B", "relogin"}, {"C", "frontchannel"}},
 		{{"A", "refresh"}, {"B", "proxy"}, {"C", "logoutlocal"}}, {{"A", "refresh"}, {"B", "refresh"}, {"C", "refresh"}}, {{"A", "proxy"}, {"B", "proxy"}, {"C", "logout"}},
 		{{"A", "refresh"}, {"B", "frontchannel"}, {"C", "proxy"}},
 	}
